@@ -8,6 +8,12 @@ string dropped), with the two forms the Gallina model knows:
                    values back and drops the cache when an item raises
   BatchUnknown     anything else -- C03_batch_facts_pinned fails
 
+the aliasing facts (second deepening round): whether get_parameter_values / get_initial_conditions hand out the cache's own
+dict (Aliased) or a copy (Copied), whether the mutators taking args= / outputs= / stoichiometries= containers keep the caller's
+objects (Aliased) or copy them (Copied) -- every body compared as a whole with the two known texts, anything else is
+AliasUnknown --, whether add_/update_reaction build their own stoichiometry dict (part of those two texts) and whether
+get_stoichiometries / get_stoichiometries_of_variable work on a deep copy of the cached table;
+
 and the arity facts: ArityMismatchError is raised by exactly one method of Model, _create_cache, in the
 sanity loop that precedes the dependency sort, over initial assignments, derived, reactions, readouts; the
 helper _check_function_arity has the known body."""
@@ -144,7 +150,7 @@ def extract(tree: ast.Module) -> dict:
     helper = next((n for n in tree.body if isinstance(n, ast.FunctionDef) and n.name == "_check_function_arity"), None)
     helper_ok = helper is not None and ast.unparse(helper.args) == "function: Callable, arity: int" and _body(helper) == CHECK_ARITY_BODY
     return {"batch_form": batch, "batch_helpers_ok": helpers_ok, "arity_raisers": sorted(users),
-            "arity_checked_before_sort": bool(first and helper_ok)}
+            "arity_checked_before_sort": bool(first and helper_ok)} | extract_alias(tree)
 
 
 def coq(f: dict) -> str:
@@ -161,4 +167,130 @@ def coq(f: dict) -> str:
         + "].\n"
         "(* _create_cache checks the arity of initial assignments, derived, reactions, readouts before it sorts *)\n"
         f"Definition arity_checked_before_sort : bool := {'true' if f['arity_checked_before_sort'] else 'false'}.\n"
+        + coq_alias(f)
+    )
+
+
+# ---------------------------------------------------------------------------------------------------------------
+# aliasing facts: do containers cross the API as values?
+# ---------------------------------------------------------------------------------------------------------------
+
+_ENSURE = "if (cache := self._cache) is None:\n    cache = self._create_cache()\n"
+GETTERS = {
+    "get_parameter_values": {"Aliased": _ENSURE + "return cache.base_parameter_values",
+                             "Copied": _ENSURE + "return dict(cache.base_parameter_values)"},
+    "get_initial_conditions": {"Aliased": _ENSURE + "return cache.initial_conditions",
+                               "Copied": _ENSURE + "return dict(cache.initial_conditions)"},
+}
+
+_STO = "{k: Derived(fn=fns.constant, args=[v]) if isinstance(v, str) else v for k, v in stoichiometry.items()}"
+_SUR_IDS_ADD = """ids = self._ids.copy()
+try:
+    self._insert_id(name=name, ctx='surrogate')
+    for output in surrogate.outputs if outputs is None else outputs:
+        self._insert_id(name=output, ctx='surrogate')
+except (KeyError, NameError):
+    self._ids = ids
+    raise
+"""
+_SUR_IDS_UPD = """if name not in self._surrogates:
+    msg = f"Surrogate '{name}' not found in model"
+    raise KeyError(msg)
+if surrogate is None:
+    surrogate = self._surrogates[name]
+ids = self._ids.copy()
+try:
+    for i in self._surrogates[name].outputs:
+        self._remove_id(name=i)
+    for i in surrogate.outputs if outputs is None else outputs:
+        self._insert_id(name=i, ctx='surrogate')
+except (KeyError, NameError):
+    self._ids = ids
+    raise
+"""
+_SUR_TAIL = {
+    "Aliased": "if args is not None:\n    surrogate.args = args\nif outputs is not None:\n    surrogate.outputs = outputs\n"
+               "if stoichiometries is not None:\n    surrogate.stoichiometries = stoichiometries\n"
+               "self._surrogates[name] = surrogate\nreturn self",
+    "Copied": "if args is not None:\n    surrogate.args = list(args)\nif outputs is not None:\n    surrogate.outputs = list(outputs)\n"
+              "if stoichiometries is not None:\n    surrogate.stoichiometries = {k: dict(v) for k, v in stoichiometries.items()}\n"
+              "self._surrogates[name] = surrogate\nreturn self",
+}
+
+
+def _arg(mode: str, x: str = "args") -> str:
+    return x if mode == "Aliased" else f"list({x})"
+
+
+def _site_bodies(mode: str) -> dict[str, str]:
+    a = _arg(mode)
+    return {
+        "add_derived": f"self._insert_id(name=name, ctx='derived')\nself._derived[name] = Derived(fn=fn, args={a}, unit=unit)\nreturn self",
+        "update_derived": f"der = self._derived[name]\nif fn is not None:\n    der.fn = fn\nif args is not None:\n    der.args = {a}\n"
+                          "if unit is not None:\n    der.unit = unit\nreturn self",
+        "add_reaction": f"self._insert_id(name=name, ctx='reaction')\nstoich: dict[str, Derived | float] = {_STO}\n"
+                        f"self._reactions[name] = Reaction(fn=fn, stoichiometry=stoich, args={a}, unit=unit)\nreturn self",
+        "update_reaction": f"rxn = self._reactions[name]\nrxn.fn = rxn.fn if fn is None else fn\nif stoichiometry is not None:\n"
+                           f"    stoich = {_STO}\n    rxn.stoichiometry = stoich\nrxn.args = rxn.args if args is None else {a}\n"
+                           "rxn.unit = rxn.unit if unit is None else unit\nreturn self",
+        "add_readout": f"self._insert_id(name=name, ctx='readout')\nself._readouts[name] = Readout(fn=fn, args={a}, unit=unit)\nreturn self",
+        "add_surrogate": _SUR_IDS_ADD + _SUR_TAIL[mode],
+        "update_surrogate": _SUR_IDS_UPD + _SUR_TAIL[mode],
+    }
+
+
+SITES = ["add_derived", "update_derived", "add_reaction", "update_reaction", "add_readout", "add_surrogate", "update_surrogate"]
+SITE_BODIES = {mode: _site_bodies(mode) for mode in ("Aliased", "Copied")}
+
+_STOICH_ARGS = "args = self.get_args(variables=variables, time=time)\n"
+STOICH_QUERIES = {
+    "get_stoichiometries": _ENSURE + _STOICH_ARGS + "stoich_by_cpds = copy.deepcopy(cache.stoich_by_cpds)\n"
+                           "for cpd, stoich in cache.dyn_stoich_by_cpds.items():\n    for rxn, derived in stoich.items():\n"
+                           "        stoich_by_cpds[cpd][rxn] = float(derived.fn(*(args[i] for i in derived.args)))\n"
+                           "return pd.DataFrame(stoich_by_cpds).T.fillna(0)",
+    "get_stoichiometries_of_variable": _ENSURE + _STOICH_ARGS + "stoich = copy.deepcopy(cache.stoich_by_cpds[variable])\n"
+                                       "for rxn, derived in cache.dyn_stoich_by_cpds.get(variable, {}).items():\n"
+                                       "    stoich[rxn] = float(derived.fn(*(args[i] for i in derived.args)))\nreturn stoich",
+}
+
+
+def _norm(text: str) -> str:
+    return ast.unparse(ast.parse(text))
+
+
+def extract_alias(tree: ast.Module) -> dict:
+    cls = next(n for n in tree.body if isinstance(n, ast.ClassDef) and n.name == "Model")
+    methods = {f.name: f for f in cls.body if isinstance(f, ast.FunctionDef)}
+
+    def form(name: str, texts: dict[str, str]) -> str:
+        f = methods.get(name)
+        if f is None:
+            return "AliasUnknown"
+        body = _body(f)
+        for mode, text in texts.items():
+            if body == _norm(text):
+                return mode
+        return "AliasUnknown"
+
+    return {
+        "getter_form": {g: form(g, GETTERS[g]) for g in GETTERS},
+        "input_form": {m: form(m, {mode: SITE_BODIES[mode][m] for mode in SITE_BODIES}) for m in SITES},
+        "stoich_queries_copy": all(n in methods and _body(methods[n]) == _norm(t) for n, t in STOICH_QUERIES.items()),
+    }
+
+
+def coq_alias(f: dict) -> str:
+    return (
+        "(* do containers cross the API as values?  Aliased = the model / the caller keeps working on the SAME object *)\n"
+        "Inductive alias_mode := Aliased | Copied | AliasUnknown.\n"
+        "Inductive getter :=\n" + "\n".join(f"| G_{g}" for g in GETTERS) + ".\n"
+        "Definition getter_form (g : getter) : alias_mode :=\n  match g with\n"
+        + "\n".join(f"  | G_{g} => {f['getter_form'][g]}" for g in GETTERS) + "\n  end.\n"
+        "(* the mutators that are given args= / outputs= / stoichiometries= containers (for add_/update_reaction the recognised\n"
+        "   texts include the construction of an own stoichiometry dict) *)\n"
+        "Inductive argsite :=\n" + "\n".join(f"| A_{m}" for m in SITES) + ".\n"
+        "Definition input_form (a : argsite) : alias_mode :=\n  match a with\n"
+        + "\n".join(f"  | A_{m} => {f['input_form'][m]}" for m in SITES) + "\n  end.\n"
+        "(* get_stoichiometries / get_stoichiometries_of_variable fill in the computed coefficients on a deep copy of the cached table *)\n"
+        f"Definition stoich_queries_copy : bool := {'true' if f['stoich_queries_copy'] else 'false'}.\n"
     )
